@@ -436,6 +436,10 @@ def gen_and_props(ck):
     ck.obligation("translator gen_goroutines_reader ran on %s" % vcheck.REPO, rc == 0 and os.path.exists(gen), out[-1500:])
     ngor = len(re.findall(r"g_file :=", open(gen).read())) if os.path.exists(gen) else 0
     ck.extra["goroutines_in_reader"] = ngor
+    mcs = re.search(r"reader_closure_stats : list nat := \[(\d+); (\d+); (\d+); (\d+); (\d+)\]", open(gen).read()) if os.path.exists(gen) else None
+    if mcs:
+        ck.extra["may_panic_callee_closure"] = dict(zip(["reader_functions", "may_panic_when_called", "calls_resolved_with_certainty_in_flow_models",
+                                                         "of_them_to_functions_that_cannot_panic", "safe_listed_names_overridden_by_a_reader_method"], map(int, mcs.groups())))
     # ---- 2. theorems (the first one is the inventory obligation over the regenerated file)
     props_ok = ck.coq_props()
     if not props_ok:
@@ -451,7 +455,9 @@ def run(ck):
         "C12: the LTS abstracts label maps, message text and float values; one LTS message per rows.Next(); real-time bounds are not proved (termination = no infinite schedule)",
         "C12: allocation of more than 2^27 float64 is modelled as a failure (unreachable for accepted requests since the caps of 5180be1: theorem accepted_requests_have_safe_context); int64 wrap-around is modelled for the matrix window (d660aeb) and the subquery sums, not for the float -> int64 conversion of parameters beyond 2^63",
         "C12: the PromQL engine's evaluator windows (a subquery is evaluated over the query window + its range + the ranges around it; one point reserved per step and series) are transcribed from the vendored promql/engine.go; PromQL durations are whole milliseconds",
-        "C12: translate/goinv_reader's control-flow models: may-panic is syntactic (calls outside a small safe list, index, slice, dereference, assertion, division, send); a deferred closure containing the release counts as a deferred release; one model per function body / literal (a lock handed to a callee is not followed)",
+        "C12: translate/goinv_reader's control-flow models: may-panic = index, slice, dereference, assertion, division, send, and calls: a call resolved by name to a function of the reader packages (plain identifier of the package, or pkg.F through an import of a reader package) is judged by the callee closure (least fixpoint; a callee that starts with an effective recover does not propagate), any other call may panic unless its name is on a small safe list and no reader method of that name can panic; resolution is by name, without go/types; a deferred closure containing the release counts as a deferred release; one model per function body / literal (a lock handed to a callee is not followed)",
+        "C12: Pyroscope handlers: the participle selector parser, protobuf / JSON body decoding, the pprof payload merger (property C16 models it) and the SQL planners are exercised, abstracted in model/ReadProf.v to parses / plans / fails; result sets are typed as the statement's columns (a wrongly typed cell inside an array or tuple is not generated: ClickHouse cannot return it)",
+        "C12: float -> int64: which doubles make the conversion undefined (NaN, infinities, |f| >= 2^63) and the value this platform produces are computed by the harness with the controller's own expressions (getRequiredNs, parseDuration); ReadConv.v models Loki query_range only at nanosecond granularity with exact arithmetic for the aligned window (_to/d*d+d can wrap in int64 within d of MaxInt64)",
         "C12: the live-tail LTS abstracts one tick's pipeline to its result (answer / error message / return) -- that pipeline is theorem tail_tick_pipeline_terminates -- and assumes time does not pass while a channel operation is ready (Go's select picks among the ready cases)",
         "C12: a Scan error in TempoService.Tags / Values / Search returns without rows.Close(): the result set is released by database/sql (Rows.awaitDone) when net/http cancels the request context -- modelled as the drainer of that cell",
         "C12: goroutine census (runtime.Stack) and the child-process crash/hang detection of harness/cmd/readfuzz",
